@@ -7,6 +7,7 @@ import (
 	"path/filepath"
 	"strconv"
 	"strings"
+	"time"
 
 	real "github.com/fsnotify/fsnotify"
 	"golang.org/x/sys/unix"
@@ -513,7 +514,26 @@ func c15InotifyReAdd(c *core.Ctx, rng *rand.Rand) {
 			} else {
 				hist = append(hist, "Add("+ops.String()+map[bool]string{true: ", no-follow", false: ""}[nofollow && variant == 6]+")")
 			}
-			if err := w.AddWith(pj, opts...); err != nil {
+			var aerr error
+			if ok, dump := core.WithWatchdog(20*time.Second, func() { aerr = w.AddWith(pj, opts...) }); !ok {
+				// the dump decides: the call is parked on a lock below the library's own frames
+				if strings.Contains(dump, "sync.(*Mutex).Lock") && strings.Contains(dump, "fsnotify.(*inotify).register") {
+					var g string
+					for _, b := range strings.Split(dump, "\n\n") {
+						if strings.Contains(b, "fsnotify.(*inotify).register") {
+							g = b
+						}
+					}
+					if len(g) > 1500 {
+						g = g[:1500]
+					}
+					c.Violate("inotify-readd-deadlock", fmt.Sprintf("variant %d (%s) history %v: the last AddWith never returned: it waits for a lock below register(), which runs with the Watcher's lock held", variant, target, hist), g)
+				} else {
+					c.Inconclusive(fmt.Sprintf("re-Add history %v: AddWith not returned at the watchdog", hist))
+				}
+				return
+			}
+			if err := aerr; err != nil {
 				c.Violate("inotify-readd", fmt.Sprintf("%s: %v: %v", target, hist, err), nil)
 				bad = true
 				break
